@@ -21,22 +21,6 @@ import Continuum.Props.C05
 
 namespace Continuum
 
-/-- does link `x` of association table `atbl` belong to the parent with key `pk`? -/
-def linkOfParent (atbl : Nat) (localFirst : Bool) (pk : List Int) (x : Link) : Bool :=
-  x.1 == atbl && (if localFirst then x.2.take pk.length == pk else x.2.drop (x.2.length - pk.length) == pk)
-
-/-- `revert_association` (uselist) at the level of rows and links -/
-def revertM2M (live : Live) (links : List Link) (rt atbl : Nat) (localFirst : Bool) (pk : List Int)
-    (shown : List (VRow Key)) : Live × List Link :=
-  (shown.foldl (fun l r => liveSet l (rt, r.key) r.vals) live,
-   links.filter (fun x => !linkOfParent atbl localFirst pk x) ++ shown.map (fun r => (atbl, mkLink localFirst pk r.key)))
-
-/-- many-to-one: the shown version, if any, is reverted -/
-def revertM2O (live : Live) (rt : Nat) (shown : Option (VRow Key)) : Live :=
-  match shown with
-  | none => live
-  | some r => liveSet live (rt, r.key) r.vals
-
 /-- the as-of answer of C04 never holds two versions of one entity -/
 def ShownUnique (shown : List (VRow Key)) : Prop := (shown.map (·.key)).Nodup
 
@@ -278,9 +262,6 @@ theorem c05_m2m_idem_eq (live : Live) (links : List Link) (rt atbl : Nat) (local
   · exact c05r_m2m_links_idem live r1.1 links rt atbl localFirst pk shown
 
 /-! ## many-to-one -/
-
-def C05.M2OHolds (after : Live) (rt : Nat) (shown : Option (VRow Key)) : Prop :=
-  ∀ r ∈ shown, liveGet after (rt, r.key) = some r.vals
 
 theorem c05_m2o (live : Live) (rt : Nat) (shown : Option (VRow Key)) :
     C05.M2OHolds (revertM2O live rt shown) rt shown := by
